@@ -57,7 +57,10 @@ Excluded == {}
 PyExcluded == {"abs", "atan2", "sum", "product"}
 RE(S) == RandomElement(S)
 RandNode ==
-    LET cat == RE(1..12)
+    LET cat == RE(1..13)
+        \* constants already in the program (from_f nodes): cat 13 uses one as the LEFT operand of a compound assignment --
+        \* the accumulator idiom  acc = const; acc -= term  in which a part absent in the accumulator meets a present one
+        consts == {NIn + k : k \in {kk \in 1..Len(prog) : prog[kk].op = "from_f"}}
         a == RE(Avail)  b == RE(Avail)  c == RE(Avail)
         sc == Scalars[RE(1..Len(Scalars))]
     IN  CASE cat \in 1..4  -> Node(RE(Unary \ Excluded), "", a, a, a, <<0, 1>>, 0, <<>>)
@@ -69,7 +72,9 @@ RandNode ==
           [] cat = 11      -> LET k == RE(1..3) IN
                               Node(RE({"sum", "product"}), RE({"owned", "ref"}), 1, 1, 1, <<0, 1>>, 0,
                                    [i \in 1..k |-> RE(Avail)])
-          [] cat = 12      -> Node("from_f", "", 1, 1, 1, sc, 0, <<>>)
+          [] cat = 12 \/ (cat = 13 /\ consts = {}) -> Node("from_f", "", 1, 1, 1, sc, 0, <<>>)
+          [] cat = 13      -> LET kc == CHOOSE x \in consts : \A y \in consts : x >= y     \* the latest constant (LET bodies are re-evaluated at every use: no randomness here)
+                              IN  Node(RE({"add", "sub", "mul", "div"}), "assign", kc, b, kc, <<0, 1>>, 0, <<>>)
 GrowSim == Len(prog) < MaxNodes /\ prog' = Append(prog, RandNode)
 SpecSim == Init /\ [][GrowSim]_prog
 StepIsGrow == [][Grow]_prog
